@@ -186,11 +186,14 @@ def run_case(case):
     except Exception as e:
         op = None
         res['inconclusive'].append('system-z operator raised %s: %s' % (type(e).__name__, str(e)[:100]))
+    fresh = mk() if rng.random() < 0.5 else None      # acceptance on an object with no rank computed yet (lazy path)
+    if fresh is not None:
+        bump('acceptance_on_unranked_object')
     for qi, (B, A) in enumerate(qs):
         qv, qf = base.q(B, A)
         if not ((qv | qf) & setup.feas):
             continue                     # antecedent has no feasible model: outside the statement
-        acc = o3.conditional_acceptance(impl.mk_cond(B, A))
+        acc = (fresh if fresh is not None else o3).conditional_acceptance(impl.mk_cond(B, A))
         ref = rm.answer(setup, 'system-z', qv, qf)
         res['evals'] += 1
         bump('acceptance_threeway')
